@@ -147,3 +147,75 @@ def check_progress_walk(schedule):
         except (AttributeError, TypeError):
             return "skipped"
     return None
+
+
+class _Stub:
+    def __getattr__(self, name):
+        return lambda *a, **k: None
+
+
+def check_start_benchmark(schedule, hosts=None):
+    """the real Driver.start_benchmark on a Driver whose collaborators are stubs: the number of steps the driver will walk equals the
+    number of schedule elements, there is one task set per step, every client id is handed to exactly one worker, and the progress
+    message works in every step.  Returns None, "skipped" or (clause, message)."""
+    import logging
+
+    from esrally.driver import driver
+
+    hosts = hosts or [{"host": "localhost", "cores": 2}, {"host": "h2", "cores": 2}]
+    started = []
+
+    class Actor:
+        def create_client(self, host, cfg, worker_id):
+            return ("worker", worker_id)
+
+        def start_worker(self, worker, worker_id, cfg, track, client_allocations, client_contexts=None):
+            started.append((worker_id, sorted(client_contexts)))
+
+    class Cfg:
+        def opts(self, section, key, **kw):
+            return type("O", (), {"all_client_options": {"default": {}}})()
+
+    try:
+        d = object.__new__(driver.Driver)
+        d.logger = logging.getLogger("verif-null")
+        d.metrics_store = _Stub()
+        d.telemetry = _Stub()
+        d.challenge = type("C", (), {"schedule": schedule})()
+        d.config = Cfg()
+        d.track = None
+        d.load_driver_hosts = hosts
+        d.driver_actor = Actor()
+        d.clients_per_worker = {}
+        d.client_contexts = {}
+        d.workers = []
+        d.quiet = False
+        d.current_step = -1
+        d.most_recent_sample_per_client = {}
+        d.progress_reporter = _Recorder()
+        d.default_sync_es_client = None
+    except Exception:  # noqa
+        return "skipped"
+    try:
+        d.start_benchmark()
+    except (IndexError, KeyError, AssertionError) as e:
+        return ("start-benchmark-raises", f"{type(e).__name__}: {e}")
+    except (AttributeError, TypeError):
+        return "skipped"  # the Driver's private layout changed: this sub-oracle does not apply
+    want_steps = len(schedule)
+    if d.number_of_steps != want_steps:
+        return ("number-of-steps", f"the driver will walk {d.number_of_steps} steps, the schedule has {want_steps} elements")
+    if len(d.tasks_per_join_point) != want_steps:
+        return ("tasks-per-step", f"{len(d.tasks_per_join_point)} task sets for {want_steps} steps")
+    nclients = max([1] + [el.clients for el in schedule])
+    ids = sorted(c for _w, cs in started for c in cs)
+    if ids != list(range(nclients)):
+        return ("clients-started", f"client ids handed to workers {ids}, expected 0..{nclients - 1}")
+    for step in range(d.number_of_steps):
+        d.current_step = step
+        try:
+            d.update_progress_message(task_finished=False)
+            d.update_progress_message(task_finished=True)
+        except (IndexError, KeyError) as e:
+            return ("progress-walk", f"step {step} of {d.number_of_steps}: update_progress_message raised {type(e).__name__}: {e}")
+    return None
